@@ -1,4 +1,5 @@
 import St4sd.Model.Restart
+import St4sd.Model.RestartKill
 /-!
 Witnesses for C12: the code as it is in the tree (`ctrlRestartOld` = `restartHookOn` tested before the
 SubmissionFailed/cap branch, with `repeatingRestartOld` = `maxRestarts`/`restartHookOn` never read by
@@ -100,5 +101,20 @@ theorem shared_hook_cache_restarts_refused_component :
     (eventsOf 1 (mexec true allowRefuse firstSecond (fun _ => St.init)
       ([⟨0, exhaustedTask⟩] ++ List.replicate 6 ⟨1, exhaustedTask⟩))).all (fun e => e.code != .initiated) = true := by
   decide
+
+/-- `Engine.restart` without its `self.process = None` (`keep = true`): the kill that arrives in the launch delay of
+the restart is reported with the exit reason of the previous task, the restart is initiated and `run()` is called
+again - `killed_before_launch_never_started_again` is false of that variant; with the reset the same history is refused. -/
+theorem stale_task_object_restarts_killed_task :
+    let c : Cfg := ⟨none, false, [.resourceExhausted], false, false, .fallback⟩
+    let k : RestartKill.Arrival → RestartKill.KInp := fun a => ⟨a, ⟨.success, .ctx .possible, true, false, true, .task⟩⟩
+    let hist := [k (.exits .task .resourceExhausted), k .kill]
+    schemaValid c = true ∧
+    (RestartKill.kexec true true c (St.init, RestartKill.run RestartKill.Eng.init) hist).map
+      (fun ev => (ev.killable, ev.reported, ev.code, ev.st.runs)) =
+      [(true, .resourceExhausted, .initiated, 1), (true, .resourceExhausted, .initiated, 2)] ∧
+    (RestartKill.kexec false true c (St.init, RestartKill.run RestartKill.Eng.init) hist).map
+      (fun ev => (ev.killable, ev.reported, ev.code, ev.st.runs)) =
+      [(true, .resourceExhausted, .initiated, 1), (true, .killed, .couldNotInitiate, 1)] := by decide
 
 end St4sd.C12.Witness
